@@ -174,7 +174,7 @@ class Builder:
     @contextmanager
     def in_block_context(self, context, name):
         """Mark us as being in a certain kind of block context."""
-        context_name = f"__in_context_{name}__"
+        context_name = self.block_context_key(name)
         old_value = context.get(context_name)
         context[context_name] = True
         try:
@@ -189,8 +189,15 @@ class Builder:
         """Return if we are in any block context given in names."""
         if isinstance(names, str):
             names = [names]
-        names = [f"__in_context_{name}__" for name in names]
+        names = [self.block_context_key(name) for name in names]
         return any(context.get(name, False) for name in names)
+
+    @staticmethod
+    def block_context_key(name):
+        """The key marking a kind of block context in the context dictionary.
+        It is not a string, so that it can never collide with (or be looked up
+        as) an identifier of the program."""
+        return ("__in_context__", name)
 
     def build_register(self, sexpression, context, gate_context):
         """Create a qubit register."""
